@@ -241,6 +241,30 @@ func lGenC08Order(r *rng, n int, w *bufio.Writer) {
 		pool := append([]lC08Val(nil), lC08Pool[kind]...)
 		shuffle(r, pool)
 		k := 2 + r.n(3)
+		if kind != "dnstype" && r.chance(1, 10) {
+			// N2: MANY values (5, 9, 17, 33, 41, 65 … up to 70): the pool is extended by generated values
+			k = n2Count(r, 1, nil, 5, 70)
+			for j := 0; len(pool) < k; j++ {
+				var v lC08Val
+				switch kind {
+				case "domain":
+					v = lC08Val{text: fmt.Sprintf("d%d.net", j), name: fmt.Sprintf("d%d.net", j)}
+				case "denyallow":
+					v = lC08Val{text: fmt.Sprintf("h%d.org", j)}
+				case "ctag":
+					v = lC08Val{text: fmt.Sprintf("tag_%d", j), name: fmt.Sprintf("tag_%d", j)}
+				default:
+					if j%2 == 0 {
+						v = lC08Val{text: fmt.Sprintf("pc%d", j), name: fmt.Sprintf("pc%d", j)}
+					} else {
+						ip := fmt.Sprintf("10.7.%d.1", j%256)
+						v = lC08Val{text: ip, ip: netip.MustParseAddr(ip)}
+					}
+				}
+				pool = append(pool, v)
+			}
+			shuffle(r, pool)
+		}
 		var base []lC08Item
 		for _, v := range pool[:k] {
 			neg := kind != "denyallow" && r.chance(1, 5)
